@@ -3,6 +3,11 @@
 use crate::fw::{gen_event, gen_history, FwCase};
 use crate::genm::{self, DistMode, GenCfg};
 use crate::util::Prng;
+use maybenot::action::Action;
+use maybenot::constants::STATE_SIGNAL;
+use maybenot::dist::{Dist, DistType};
+use maybenot::event::Event;
+use maybenot::state::{State, Trans};
 use maybenot::{Machine, MachineId, TriggerEvent};
 
 fn completion_for(p: &mut Prng, n: usize) -> TriggerEvent {
@@ -500,8 +505,64 @@ fn gen_c02frac(p: &mut Prng, id: String) -> FwCase {
     FwCase { id, kind: "c02frac".into(), machines, fp, fb: 0.0, t0: 0, calls, rng_seed: p.next(), extreme: 0, ni: None, prefix: vec![] }
 }
 
+/// Many machines (past every plausible index width: 9, 17, 33, 65, 130, 257) and one machine with more
+/// than 256 states that is walked up to its high state indices: bit sets, narrow casts and fixed-size
+/// scratch arrays indexed by machine or state only show beyond these sizes.
+fn gen_wide(p: &mut Prng, id: String) -> FwCase {
+    use enum_map::enum_map;
+    let n = *p.pick(&[9usize, 17, 33, 65, 66, 130, 257]);
+    let mut cfg = GenCfg::default();
+    cfg.dist = DistMode::Const;
+    cfg.max_states = 2;
+    cfg.density = *p.pick(&[25, 40]);
+    let mut machines: Vec<Machine> = (0..n).map(|_| genm::gen_machine(p, &cfg)).collect();
+    // the long machine: a chain over NormalSent with an action in every state, a signal from the top
+    let len = *p.pick(&[257usize, 300, 600]);
+    let konst = |v: f64| Dist { dist: DistType::Uniform { low: v, high: v }, start: 0.0, max: 0.0 };
+    let mut states = Vec::with_capacity(len);
+    for i in 0..len {
+        let next = if i + 1 < len { i + 1 } else { 0 };
+        let mut st = State::new(enum_map! {
+            Event::NormalSent => vec![Trans(next, 1.0)],
+            Event::Signal => if i % 7 == 0 { vec![Trans((i * 31 + 5) % len, 1.0)] } else { vec![] },
+            Event::NormalRecv => if i + 1 == len { vec![Trans(STATE_SIGNAL, 1.0)] } else { vec![] },
+            _ => vec![],
+        });
+        st.action = Some(match i % 3 {
+            0 => Action::SendPadding { bypass: i % 2 == 0, replace: i % 5 == 0, timeout: konst(i as f64), limit: None },
+            1 => Action::UpdateTimer { replace: false, duration: konst(i as f64), limit: None },
+            _ => Action::BlockOutgoing { bypass: false, replace: i % 2 == 1, timeout: konst(1.0), duration: konst(i as f64), limit: None },
+        });
+        states.push(st);
+    }
+    let long = Machine::new(u64::MAX, 0.0, u64::MAX, 0.0, states).expect("wide long machine");
+    let pos = p.below(n as u64) as usize;
+    machines[pos] = long;
+    // history: enough NormalSent to climb the chain, interleaved with completions for high machine ids
+    let mut calls = Vec::new();
+    let mut t: i128 = 0;
+    let steps = p.range(40, 120);
+    for k in 0..steps {
+        t += p.below(3) as i128 * 1000;
+        let mut evs = Vec::new();
+        let burst = if k % 4 == 0 { p.range(1, 12) } else { 1 };
+        for _ in 0..burst {
+            evs.push(TriggerEvent::NormalSent);
+        }
+        if p.chance(1, 2) {
+            evs.push(crate::fw::gen_event(p, n));
+        }
+        if p.chance(1, 6) {
+            evs.push(TriggerEvent::NormalRecv);
+        }
+        calls.push((t, evs));
+    }
+    FwCase { id, kind: "wide".into(), machines, fp: 0.0, fb: 0.0, t0: 0, calls, rng_seed: p.next(), extreme: 0, ni: None, prefix: vec![] }
+}
+
 pub fn gen_kind(kind: &str, p: &mut Prng, id: String) -> Option<FwCase> {
     match kind {
+        "wide" => Some(gen_wide(p, id)),
         "c02frac" => Some(gen_c02frac(p, id)),
         "extsample" => {
             let first = id.ends_with("-0");
